@@ -7,7 +7,7 @@
 From Coq Require Import ZArith List Bool.
 From RecordUpdate Require Import RecordSet.
 From Common Require Import Res.
-From Core Require Import World Model Step Reach Rel_Frame Proofs_C03.
+From Core Require Import World Model Step Reach Rel_Frame Proofs_C03 Proofs_C03b.
 Import ListNotations RecordSetNotations.
 Open Scope Z_scope.
 
@@ -72,3 +72,51 @@ Theorem C03_predictor_is_selection :
      (match r with Ok t => Ok (ROptZ (option_map tlid t)) | Raise e => Raise e | Diverge => Diverge end, w')).
 Proof. exact predictor_is_selection. Qed.
 Print Assumptions C03_predictor_is_selection.
+
+(* The prediction clause, proved by symbolic execution of the model (Proofs_C03b.v).  A state is
+   "settled on c": no notification pending, no switch or seek under way, c current with a
+   playback backend, and the audio layer agrees with the reported state. *)
+Theorem C03_next_prediction_playing :
+  forall shuf f x c w, settled_on w c -> pstate w = Playing -> consume w = false -> accepts w x ->
+  next_track shuf (Some c) w = (Ok (Some x), w) ->
+  let w' := run_world shuf (S f) w [Next; Deliver; Deliver; Deliver; Deliver] in
+  current w' = Some x /\ pstate w' = Playing /\ pending w' = None /\ queue w' = []
+  /\ a_uri w' = Some (trk x) /\ a_state w' = Playing /\ World.tl w' = World.tl w.
+Proof. exact next_prediction_playing. Qed.
+Print Assumptions C03_next_prediction_playing.
+
+Theorem C03_next_prediction_paused :
+  forall shuf f x c w, settled_on w c -> pstate w = Paused -> consume w = false -> accepts w x ->
+  next_track shuf (Some c) w = (Ok (Some x), w) ->
+  let w' := run_world shuf (S f) w [Next; Deliver; Deliver; Deliver] in
+  current w' = Some x /\ pstate w' = Paused /\ pending w' = None /\ queue w' = []
+  /\ a_uri w' = Some (trk x) /\ a_state w' = Paused /\ World.tl w' = World.tl w.
+Proof. exact next_prediction_paused. Qed.
+Print Assumptions C03_next_prediction_paused.
+
+Theorem C03_next_prediction_stopped :
+  forall shuf f x c w, settled_on w c -> pstate w = Stopped -> accepts w x ->
+  next_track shuf (Some c) w = (Ok (Some x), w) ->
+  let w' := run_world shuf (S f) w [Next] in
+  current w' = Some x /\ pstate w' = Stopped /\ pending w' = None /\ queue w' = []
+  /\ World.tl w' = World.tl w.
+Proof. exact next_prediction_stopped. Qed.
+Print Assumptions C03_next_prediction_stopped.
+
+Theorem C03_previous_prediction_playing :
+  forall shuf f x c w, settled_on w c -> pstate w = Playing -> consume w = false -> accepts w x ->
+  previous_track (Some c) w = (Ok (Some x), w) ->
+  let w' := run_world shuf (S f) w [Previous; Deliver; Deliver; Deliver; Deliver] in
+  current w' = Some x /\ pstate w' = Playing /\ pending w' = None /\ queue w' = []
+  /\ a_uri w' = Some (trk x) /\ a_state w' = Playing /\ World.tl w' = World.tl w.
+Proof. exact previous_prediction_playing. Qed.
+Print Assumptions C03_previous_prediction_playing.
+
+Theorem C03_eot_prediction_playing :
+  forall shuf f x c len w, settled_on w c -> pstate w = Playing -> consume w = false -> a_atf_done w = false ->
+  len_of w (trk c) = Some len -> accepts w x -> announces_eot shuf w c x ->
+  let w' := run_world shuf (S f) w [AboutToFinish; Deliver; Deliver] in
+  current w' = Some x /\ pstate w' = Playing /\ pending w' = None /\ queue w' = []
+  /\ a_uri w' = Some (trk x) /\ a_state w' = Playing /\ World.tl w' = World.tl w.
+Proof. exact eot_prediction_playing. Qed.
+Print Assumptions C03_eot_prediction_playing.
